@@ -49,16 +49,19 @@ def attr(case, n):
         args.append('properties = { "k": "{{x}}" }')
     elif p == "both":
         args.append('properties = { "k": "{{{a}}}" }')
+    elif p == "recording":
+        # an argument whose Display implementation itself records something through the local parent
+        args.append('properties = { "k": "a={a} w={w}", "k2": "v2" }')
     return "#[fastrace::trace(%s)]" % ", ".join(args) if args else "#[fastrace::trace]"
 
 
 def expected_props(case):
     p = case["props"] if case["kind"] not in ("eop", "atrait_eop") else "none"
-    return {"closing": [["k", "limit 100}"]], "none": [], "literal": [["k1", "v1"], ["k2", "v 2"]], "format": [["k", "a=1 r=rr"]], "escaped": [["k", "{x}"]], "both": [["k", "{1}"]]}[p]
+    return {"closing": [["k", "limit 100}"]], "none": [], "literal": [["k1", "v1"], ["k2", "v 2"]], "format": [["k", "a=1 r=rr"]], "escaped": [["k", "{x}"]], "both": [["k", "{1}"]], "recording": [["k", "a=1 w=W"], ["k2", "v2"]]}[p]
 
 
-PARAMS = "log: &mut Log, a: i32, s: String, r: &str, go: bool, path: &mut String"
-ARGS = '1, "ss".to_string(), "rr", true'
+PARAMS = "log: &mut Log, a: i32, s: String, r: &str, go: bool, w: crate::Rec, path: &mut String"
+ARGS = '1, "ss".to_string(), "rr", true, crate::Rec'
 
 
 def gen_case(n, case):
@@ -75,9 +78,9 @@ def gen_case(n, case):
         b = body_src(case["body"], which == "traced", is_async)
         asy = "async " if is_async else ""
         if kind == "generic":
-            sig = "fn %s<T: std::fmt::Display + Copy>(log: &mut Log, a: T, s: String, r: &str, go: bool, path: &mut String) -> Result<i32, String>" % name
+            sig = "fn %s<T: std::fmt::Display + Copy>(log: &mut Log, a: T, s: String, r: &str, go: bool, w: crate::Rec, path: &mut String) -> Result<i32, String>" % name
         elif kind == "lifetime":
-            sig = "fn %s<'x>(log: &'x mut Log, a: i32, s: String, r: &'x str, go: bool, path: &'x mut String) -> Result<i32, String>" % name
+            sig = "fn %s<'x>(log: &'x mut Log, a: i32, s: String, r: &'x str, go: bool, w: crate::Rec, path: &'x mut String) -> Result<i32, String>" % name
         elif is_method:
             sig = "%sfn %s(&self, %s) -> Result<i32, String>" % (asy, name, PARAMS)
         else:
